@@ -31,6 +31,9 @@ FUNCTIONS = {"KLGEMINI": G.KLGEMINI.__init__, "TVGEMINI": G.TVGEMINI.__init__, "
              "print_kauri_tree": impl.print_kauri_tree, "draw_gmm": gdata.draw_gmm, "multivariate_student_t": gdata.multivariate_student_t,
              "gstm": gdata.gstm, "celeux_one": gdata.celeux_one, "celeux_two": gdata.celeux_two, "add_mlcl_constraint": impl.add_mlcl_constraint}
 SPARSE = set(impl.SPARSE)
+# attributes that hold no learnt parameter: the number of features, the completed group partition (a function of the groups
+# hyper-parameter and the number of features), KernelRIM's copy of the training data and its kernel
+BOOKKEEPING = {"n_features_in_", "groups_", "input_data_", "training_kernel_"}
 NON_WEIGHTS = {"n_features_in_", "optimiser_", "labels_", "n_iter_", "groups_", "input_data_", "training_kernel_", "tree_", "leaves_"}
 
 
@@ -162,8 +165,19 @@ def interval_bounds(cons):
     return sorted(set(out))
 
 
+def doc_info(chk, e, p):
+    """Finite bounds and strings of the documented domain of (e, p): probed whatever the code declares."""
+    t = chk.ask(f"c16.docinfo {e} {p}")
+    if t.next() == "U":
+        return [], []
+    zb = t.list(t.int)
+    qb = t.list(lambda: Fraction(t.int(), t.int()))
+    return sorted(set(zb) | {float(q) for q in qb}), [bytes.fromhex(h).decode() if h != "-" else "" for h in t.list(t.next)]
+
+
 def candidate_values(chk, e, p, cons, rng):
-    bounds = interval_bounds(cons) or [0, 1]
+    dbounds, dstrs = doc_info(chk, "KLGEMINI" if e == "MI" else e, p)
+    bounds = sorted(set(interval_bounds(cons)) | set(dbounds)) or [0, 1]
     ints = {-1, 0, 1, 2, 3}
     reals = {0.5, -0.5, 1.5, 2.0, 1e-3}
     ulps = set()            # one ulp off a bound: decides open / closed for the validator; not a sensible hyper-parameter to train with
@@ -174,11 +188,11 @@ def candidate_values(chk, e, p, cons, rng):
         ulps |= {float(np.nextafter(float(b), np.inf)), float(np.nextafter(float(b), -np.inf))}
     if chk.tier == "thorough":
         lo, hi = min(bounds) - 4, max(bounds) + 4
-        ints |= {int(rng.integers(lo, hi + 1)) for _ in range(6)}
-        reals |= {float(rng.uniform(lo, hi)) for _ in range(6)}
+        ints |= {int(rng.integers(lo, hi + 1)) for _ in range(12)}
+        reals |= {float(rng.uniform(lo, hi)) for _ in range(24)}
     vals = [v_int(z, numpy_flavour=(k % 3 == 2)) for k, z in enumerate(sorted(ints))] + [v_real(x) for x in sorted(reals)] + [v_real(x, True) for x in sorted(ulps - reals)]
     vals += [V_TRUE, V_FALSE, V_NPBOOL, V_NAN, V_PINF, V_NINF, V_NONE, V_OTHER]
-    opts = sorted({o for c in cons or [] if isinstance(c, skpv.StrOptions) for o in c.options})
+    opts = sorted({o for c in cons or [] if isinstance(c, skpv.StrOptions) for o in c.options} | set(dstrs))
     vals += [v_str(o) for o in opts] + [v_str("nonsense"), v_str("")]
     if opts:
         vals += [v_str(opts[0].upper()), v_str(opts[-1] + " ")]
@@ -232,7 +246,11 @@ def fn_params(fn):
 
 
 def live_fn_constraints(fn):
-    return inspect.getclosurevars(fn).nonlocals["parameter_constraints"]
+    """The dict given to @constraint_params (a closure variable of the wrapper); None when it cannot be reached."""
+    try:
+        return inspect.getclosurevars(fn).nonlocals["parameter_constraints"]
+    except Exception:  # noqa
+        return None
 
 
 # ------------------------------------------------------------------------------------------- rejected fits
@@ -256,9 +274,11 @@ def weights_of(name):
     return _WEIGHTS[name]
 
 
-def check_rejected(chk, name, est, stage, key, replay, X=None):
+def check_rejected(chk, name, est, stage, key, replay, X=None, cause=None):
     """After a rejected fit: L2 the attributes left behind are those of the checks/writes model for this stage (when the
-    stage is known); L3 nothing but (at most) n_features_in_ may be left, and predict must still raise."""
+    stage is known); L3 no learnt attribute (anything outside BOOKKEEPING) may be left, and predict must still raise.
+    cause='bool-for-int': the rejection is numpy's TypeError for a bool that validation let through as an integer — the
+    leftovers of that crash are reported under the key of that root cause (Kauri keeps its own keys)."""
     fam = family(name)
     left = fitted_attrs(est)
     if stage is not None:
@@ -266,21 +286,22 @@ def check_rejected(chk, name, est, stage, key, replay, X=None):
         acc, vf, exp = trace_model(chk, fam, w, stage)
         if acc or sorted(set(exp)) != left:
             chk.fail(f"trace:{fam}:{stage}", f"{name}: attributes left by a fit rejected at stage '{stage}' are {left}, the checks/writes model says {sorted(set(exp))}", replay)
-    extra = [a for a in left if a != "n_features_in_"]
+    extra = [a for a in left if a not in BOOKKEEPING]
+    by_cause = cause == "bool-for-int" and fam != "kauri"
     chk.dist["rejected-fit leaves: " + (",".join(left) or "nothing")] += 1
     if extra:
-        chk.fail(f"unfitted:{fam}", f"{name}: fit rejected ({key}; stage {stage or 'after validation'}) left fitted attributes {left}", replay, layer="L3")
+        chk.fail("doc-rejects:bool-for-int" if by_cause else f"unfitted:{fam}", f"{name}: fit rejected ({key}; stage {stage or 'after validation'}) left fitted attributes {left}", replay, layer="L3")
     still_fitted = True
     try:
         check_is_fitted(est)
     except NotFittedError:
         still_fitted = False
     if still_fitted and not extra:
-        chk.dist["check_is_fitted passes after a rejected fit (n_features_in_ only)"] += 1
+        chk.dist["check_is_fitted passes after a rejected fit (bookkeeping attributes only: " + ",".join(left) + ")"] += 1
     if X is not None:
         r, res = outcome(lambda: est.predict(X))
         if r == "accepted":
-            chk.fail(f"predict-after-rejected-fit:{fam}", f"{name}: predict returns {np.asarray(res).tolist()[:8]} after a rejected fit ({key}; stage {stage or 'after validation'})", replay, layer="L3")
+            chk.fail("doc-rejects:bool-for-int" if by_cause else f"predict-after-rejected-fit:{fam}", f"{name}: predict returns {np.asarray(res).tolist()[:8]} after a rejected fit ({key}; stage {stage or 'after validation'})", replay, layer="L3")
 
 
 def stage_of(name, exc, default):
@@ -338,8 +359,15 @@ def stream_table(chk, i, rng):
         n += len(live)
         if not translator_failed and gen_est.get(name) != live:
             chk.fail("gen-vs-live:estimator", f"{name}: regenerated constraints {gen_est.get(name)} differ from the live _parameter_constraints {live}", {"estimator": name})
+    if not translator_failed and set(gen_est) != set(impl.ALL_ESTIMATORS) | {"DiscriminativeModel"}:
+        chk.fail("gen-vs-live:estimator", f"classes with _parameter_constraints in the sources {sorted(gen_est)} differ from the estimator registry", {})
+    if not translator_failed and set(gen_fn) != set(FUNCTIONS):
+        chk.fail("gen-vs-live:function", f"decorated functions in the sources {sorted(gen_fn)} differ from the functions the check calls {sorted(FUNCTIONS)}", {})
     for name, fn in FUNCTIONS.items():
         cons = live_fn_constraints(fn)
+        if cons is None:
+            chk.notes.append(f"{name}: the decorator's constraint dict is not reachable; the regenerated table is used for it")
+            continue
         live = [(p, enc_ocs(cons.get(p), True)) for p in fn_params(fn)]
         n += len(live)
         if not translator_failed and gen_fn.get(name) != live:
@@ -426,7 +454,7 @@ def stream_params(chk, i, rng):
             chk.fail("gen-vs-live:value", f"{name}.{p}={v.label}: regenerated table says {gen}, live constraints say {sat}", replay)
         kw = base_kwargs(name, p)
         obj = v.make()
-        if name == "Kauri" and p == "min_samples_leaf" and isinstance(obj, (int, np.integer)) and not isinstance(obj, bool) and 1 <= obj <= 4:
+        if name == "Kauri" and p == "min_samples_leaf" and isinstance(obj, (int, np.integer)) and not isinstance(obj, bool) and 1 <= obj <= N:
             kw["min_samples_split"] = 2 * int(obj)          # keep the documented cross rule satisfied
         kw[p] = obj
         r_val, _ = outcome(lambda: cls(**kw)._validate_params())
@@ -434,8 +462,10 @@ def stream_params(chk, i, rng):
         y = (Dm if p == "metric" else K) if (p in ("kernel", "metric") and isinstance(obj, str) and obj == "precomputed") else None
         r_fit, exc = outcome(lambda: est.fit(X, y))
         rejected = classify(chk, f"{name}.{p}", p, v, sat, doc, r_val, r_fit, exc, replay)
-        if rejected:
-            check_rejected(chk, name, est, stage_of(name, exc, None), f"{p}={v.label}", replay, X)
+        by_type_only = v.extreme or (v.kind == "instance" and p in ("kernel", "metric", "base_kernel"))
+        if rejected and not (sat and by_type_only):        # a crash while training with such a value is not a validation matter
+            check_rejected(chk, name, est, stage_of(name, exc, None), f"{p}={v.label}", replay, X,
+                           cause="bool-for-int" if (v.kind == "bool" and sat and doc) else None)
         elif r_fit == "accepted":
             missing = [a for a in weights_of(name)[1] if not hasattr(est, a)]
             if missing:
@@ -474,12 +504,15 @@ def call_function(name, p, obj):
 def stream_functions(chk, i, rng):
     name, p = fn_cases()[i]
     table = "KLGEMINI" if name == "MI" else name
-    cons = live_fn_constraints(FUNCTIONS[table]).get(p)
+    live = live_fn_constraints(FUNCTIONS[table])
+    cons = None if live is None else live.get(p)
     ocs_tok = enc_ocs(cons, True)
     translator_failed = "TRANSLATOR-FAIL translator/tr_constraints.py" in chk.build_out
     for v in candidate_values(chk, name, p, cons, rng):
         replay = {"function": name, "param": p, "value": v.label, "token": v.tok}
         sat, gen, doc = ask_models(chk, table, p, ocs_tok, v)
+        if live is None:
+            sat = gen
         if gen != sat and not translator_failed:
             chk.fail("gen-vs-live:value", f"{name}.{p}={v.label}: regenerated table says {gen}, live constraints say {sat}", replay)
         obj = v.make()
@@ -516,21 +549,23 @@ def stream_cross(chk, i, rng):
         chk.dist["kauri cross " + ("ok" if ok else "violated")] += 1
         chk.count(("kauri", leaf, split))
     else:
-        m = i - 32                              # mask length 0..6 ; 7 = None
+        masks = [None, [], [True], [True, False], [True, False, True], [False, False, False], [False, True, False], [True, True, True],
+                 [True, False, True, True], [False, False, False, False], [True] * 6]
+        mask = masks[i - 32]
         d = 3
-        mask = None if m == 7 else np.array(([True, False, True, True, False, True])[:m], dtype=bool)
-        ok = chk.ask(f"c16.mask {enc_opt(None if mask is None else len(mask))} {d}").bool()
-        est = impl.Douglas(n_clusters=2, feature_mask=mask, max_iter=1, random_state=0)
+        arr = None if mask is None else np.array(mask, dtype=bool)
+        ok = chk.ask(f"c16.mask {enc_opt(mask, lambda m: enc_list(m, lambda b: str(int(b))))} {d}").bool()
+        est = impl.Douglas(n_clusters=2, feature_mask=arr, max_iter=1, random_state=0)
         r, exc = outcome(lambda: est.fit(X))
-        replay = {"estimator": "Douglas", "mask_len": None if mask is None else len(mask), "d": d}
+        replay = {"estimator": "Douglas", "feature_mask": mask, "d": d}
         if (r == "accepted") != ok:
-            chk.fail("cross:douglas:model-mismatch", f"Douglas(feature_mask of length {replay['mask_len']}).fit on {d} features: {r}, model says {'accept' if ok else 'reject'}", replay)
-        if (r == "accepted") != (mask is None or len(mask) == d) or r == "other":
-            chk.fail("cross:douglas", f"Douglas(feature_mask of length {replay['mask_len']}).fit on {d} features: {r} ({exc})", replay, layer="L3")
+            chk.fail("cross:douglas:model-mismatch", f"Douglas(feature_mask={mask}).fit on {d} features: {r}, model says {'accept' if ok else 'reject'}", replay)
+        if (r == "accepted") != (mask is None or (len(mask) == d and any(mask))) or r == "other":
+            chk.fail("cross:douglas", f"Douglas(feature_mask={mask}).fit on {d} features: {r} ({exc})", replay, layer="L3")
         if r != "accepted":
-            check_rejected(chk, "Douglas", est, "cross", "feature_mask length", replay, X)
-        chk.dist["douglas mask " + ("ok" if ok else "wrong length")] += 1
-        chk.count(("douglas", m))
+            check_rejected(chk, "Douglas", est, "cross" if len(mask) != d else None, f"feature_mask={mask}", replay, X)
+        chk.dist["douglas mask " + ("ok" if ok else "wrong length" if len(mask) != d else "selects nothing")] += 1
+        chk.count(("douglas", str(mask)))
 
 
 # ------------------------------------------------------------------------------------------- stream: malformed training data
@@ -561,10 +596,7 @@ def stream_malformed(chk, i, rng):
     else:
         est, m = impl.make(name, n_clusters=3, max_iter=1, random_state=0), 3
     Xb = make()
-    if name in SPARSE:
-        ok = chk.ask(f"c16.sparsedata {int(hasattr(Xb, 'shape'))} {ndim} {n} {d} {int(numeric)} {int(finite)} {m}").bool()
-    else:
-        ok = chk.ask(f"c16.data {ndim} {n} {d} {int(numeric)} {int(finite)} {m}").bool()
+    ok = chk.ask(f"c16.data {ndim} {n} {d} {int(numeric)} {int(finite)} {m}").bool()
     r, exc = outcome(lambda: est.fit(Xb))
     replay = {"estimator": name, "input": kind}
     if (r == "accepted") != ok:
@@ -584,11 +616,15 @@ def stream_malformed(chk, i, rng):
 
 
 # ------------------------------------------------------------------------------------------- stream: affinity given / missing
+AFFINITY_NAMES = ["LinearMMD", "MLPMMD", "SparseLinearMMD", "SparseMLPMMD", "CategoricalMMD", "LinearWasserstein", "MLPWasserstein",
+                  "CategoricalWasserstein", "LinearModel", "MLPModel", "Douglas", "Kauri"]
+AFFINITY_KINDS = ["missing", "wrong-shape", "non-square", "1-D", "3-D", "nan", "strings", "given", "given-as-list"]
+
+
 def stream_affinity(chk, i, rng):
     """A precomputed kernel / metric that is missing or has the wrong shape is a malformed input of fit."""
-    names = ["LinearMMD", "MLPMMD", "SparseLinearMMD", "SparseMLPMMD", "CategoricalMMD", "LinearWasserstein", "MLPWasserstein", "CategoricalWasserstein",
-             "LinearModel", "MLPModel", "Douglas"]
-    kinds = ["missing", "wrong-shape", "1-D", "given"]
+    names = AFFINITY_NAMES
+    kinds = AFFINITY_KINDS
     name, kind = names[i // len(kinds)], kinds[i % len(kinds)]
     X = data()
     kw = dict(max_iter=1, random_state=0, n_clusters=2)
@@ -598,12 +634,26 @@ def stream_affinity(chk, i, rng):
         kw["metric"] = "precomputed"
     else:
         kw["kernel"] = "precomputed"
-    est = impl.make(name, **kw)
+    if name == "Kauri":
+        if kind == "missing":          # Kauri warns and falls back to the linear kernel: property C11's known finding F17
+            chk.count(None)
+            return
+        est = impl.Kauri(max_clusters=2, kernel="precomputed", random_state=0)
+    else:
+        est = impl.make(name, **kw)
     A = universal_metric(X) if "Wasserstein" in name else universal_kernel(X)
-    y = {"missing": None, "wrong-shape": A[:-2, :-2], "1-D": A[0], "given": A}[kind]
+    nanA = A.copy()
+    nanA[1, 2] = np.nan
+    y, shape = {"missing": (None, None), "wrong-shape": (A[:-2, :-2], (2, N - 2, N - 2, 1, 1)), "non-square": (A[:, :-1], (2, N, N - 1, 1, 1)),
+                "1-D": (A[0], (1, N, 1, 1, 1)), "3-D": (A.reshape(N, N, 1), (3, N, N, 1, 1)), "nan": (nanA, (2, N, N, 1, 0)),
+                "strings": (np.array([["a"] * N] * N, dtype=object), (2, N, N, 0, 1)), "given": (A, (2, N, N, 1, 1)), "given-as-list": (A.tolist(), (2, N, N, 1, 1))}[kind]
     r, exc = outcome(lambda: est.fit(X, y))
     replay = {"estimator": name, "precomputed": kind}
-    if kind == "given":
+    if shape is not None:
+        ok = chk.ask(f"c16.precomputed {shape[0]} {shape[1]} {shape[2]} {N} {shape[3]} {shape[4]}").bool()
+        if (r == "accepted") != ok:
+            chk.fail("affinity:model-mismatch", f"{name}.fit with a {kind} precomputed affinity: {r} ({exc if r != 'accepted' else ''}), the model of the precomputed rule says {'accept' if ok else 'reject'}", replay)
+    if kind.startswith("given"):
         if r != "accepted":
             chk.fail("affinity:given-rejected", f"{name} with a precomputed affinity of the right shape: {type(exc).__name__}: {str(exc)[:160]}", replay, layer="L3")
     else:
@@ -613,7 +663,7 @@ def stream_affinity(chk, i, rng):
         elif r == "other":
             chk.fail(key, f"{name}.fit with a {kind} precomputed affinity raises {type(exc).__name__}: {str(exc)[:160]} — neither a ValueError nor a TypeError", replay, layer="L3")
         if r != "accepted":
-            check_rejected(chk, name, est, "affinity" if kind == "missing" else None, f"precomputed affinity {kind}", replay, X)
+            check_rejected(chk, name, est, "affinity", f"precomputed affinity {kind}", replay, X)
     chk.dist[f"affinity:{kind}:{r}"] += 1
     chk.count(("affinity", name, kind))
 
@@ -685,17 +735,25 @@ def group_universe(chk):
 CHUNK = 250
 
 
+def enc_entry(x):
+    if isinstance(x, (bool, np.bool_)):
+        return f"b{int(x)}"
+    return str(int(x)) if isinstance(x, (int, np.integer)) else "o"
+
+
 def spec_groups(groups, d):
     """Independent specification: None when rejected, else the completed partition."""
     flat = [x for g in groups for x in g]
+    if any(type(x) is not int and not (isinstance(x, np.integer)) for x in flat):
+        return None
     if any(not (0 <= x < d) for x in flat) or len(set(flat)) != len(flat):
         return None
     return [list(g) for g in groups] + [[i] for i in range(d) if i not in flat]
 
 
 def one_groups(chk, d, groups, via_fit=False):
-    replay = {"d": d, "groups": groups}
-    t = chk.ask(f"c16.groups {d} " + enc_list(groups, lambda g: enc_list(g)))
+    replay = {"d": d, "groups": repr(groups)}
+    t = chk.ask(f"c16.groups {d} " + enc_list(groups, lambda g: enc_list(g, enc_entry)))
     model = t.opt(lambda: t.list(lambda: t.list(t.int)))
     r, res = outcome(lambda: check_groups([list(g) for g in groups], d))
     got = [list(map(int, g)) for g in res] if r == "accepted" else None
@@ -718,9 +776,10 @@ def one_groups(chk, d, groups, via_fit=False):
             check_rejected(chk, "SparseLinearModel", est, "groups", f"groups={groups}", replay, X)
         chk.traces += 1
     flat = [x for g in groups for x in g]
-    kind = "accepted" if want is not None else ("out-of-range" if any(not (0 <= x < d) for x in flat) else "duplicate")
+    nonint = any(enc_entry(x) in ("o", "b0", "b1") for x in flat)
+    kind = "accepted" if want is not None else "non-integer entry" if nonint else ("out-of-range" if any(not (0 <= x < d) for x in flat) else "duplicate")
     chk.dist[f"groups d={d} {kind}" + (" full" if len(flat) == d else " partial")] += 1
-    chk.count((d, json.dumps(groups)) if flat else None)
+    chk.count((d, repr(groups)) if flat else None)
 
 
 def stream_groups(chk, i, rng):
@@ -741,6 +800,21 @@ def stream_groups_random(chk, i, rng):
     seq = [int(x) for x in seq]
     gl = list(splits(seq))
     one_groups(chk, d, gl[int(rng.integers(len(gl)))], via_fit=(i % 10 == 0))
+
+
+ENTRY_ALPHABET = [0, 1, 2, True, False, 1.0, 0.5, "a", None, np.int64(1)]
+
+
+def stream_groups_entries(chk, i, rng):
+    """Group lists over 3 features whose entries range over integers, bools, floats, strings and None (all lists of <= 2
+    entries, random ones of 3): only integer indices may be accepted."""
+    pairs = [[a] for a in ENTRY_ALPHABET] + [[a, b] for a in ENTRY_ALPHABET for b in ENTRY_ALPHABET]
+    if i < len(pairs):
+        seq = pairs[i]
+    else:
+        seq = [ENTRY_ALPHABET[int(k)] for k in rng.integers(0, len(ENTRY_ALPHABET), size=3)]
+    for g in splits(seq):
+        one_groups(chk, 3, g, via_fit=True)
 
 
 def stream_groups_malformed(chk, i, rng):
@@ -776,12 +850,13 @@ def main():
         "table": (stream_table, lambda: 1, 1),
         "params": (stream_params, lambda: len(est_cases()), 1),
         "functions": (stream_functions, lambda: len(fn_cases()), 1),
-        "cross": (stream_cross, lambda: 40, 1),
+        "cross": (stream_cross, lambda: 43, 1),
         "malformed": (stream_malformed, lambda: len(impl.ALL_ESTIMATORS) * len(malformed_inputs()), 1),
-        "affinity": (stream_affinity, lambda: 44, 1),
+        "affinity": (stream_affinity, lambda: len(AFFINITY_NAMES) * len(AFFINITY_KINDS), 1),
         "beforefit": (stream_beforefit, lambda: len(impl.ALL_ESTIMATORS) + 1, 1),
         "groups": (stream_groups, lambda: n_group_chunks(chk), 1),
-        "groups_random": (stream_groups_random, lambda: 600 if chk.tier == "quick" else 6000, 3),
+        "groups_random": (stream_groups_random, lambda: 600 if chk.tier == "quick" else 30000, 3),
+        "groups_entries": (stream_groups_entries, lambda: 150 if chk.tier == "quick" else 1500, 3),
         "groups_malformed": (stream_groups_malformed, lambda: 11, 1),
     }
     timing = {}
@@ -804,9 +879,9 @@ def main():
                     "functions/constructors x ~50 values (integers and floats at, just inside and just outside every bound incl. nextafter, wrong types, bool, np.bool_, NaN, +-inf, "
                     "every string option and non-options, None, callables, containers, instances): verdict of _validate_params / the decorator vs `satisfied` on the live constraints, "
                     "fit / call outcome vs the documented domain, attributes left by rejected fits vs the checks/writes model; Kauri (leaf, split) grid and Douglas mask lengths; "
-                    "16 kinds of training data x 18 estimators; precomputed affinity missing / ill-shaped; predict/predict_proba/score/get_selection/print before fit; check_groups on ALL "
-                    "group lists over d<=3 features with up to d+1 entries from -1..d and over d=4 with up to 4 (quick) / 5 (thorough) entries, plus random lists over 4..7 features and "
-                    "non-integer group lists. non-trivial = a value/group list actually evaluated by both sides (empty group lists excluded); distinct = distinct (estimator|function, parameter, value token) / (d, group list)",
+                    "16 kinds of training data x 18 estimators; precomputed affinity missing / ill-shaped / non-finite / non-numeric vs the precomputed rule of the model; predict/predict_proba/score/get_selection/print before fit; check_groups on ALL "
+                    "group lists over d<=3 features with up to d+1 entries from -1..d and over d=4 with up to 4 (quick) / 5 (thorough) entries, plus random lists over 4..7 features, all lists of <=2 entries over ints/bools/floats/strings/None and "
+                    "structurally malformed group arguments. non-trivial = a value/group list actually evaluated by both sides (empty group lists excluded); distinct = distinct (estimator|function, parameter, value token) / (d, group list)",
                extra={"regenerated": chk.regenerated})
 
 
